@@ -17,6 +17,7 @@ package main
 import (
 	"bytes"
 	"context"
+	"errors"
 	"fmt"
 	"io"
 	"runtime"
@@ -251,18 +252,30 @@ func run2003(in Sx) Sx {
 type fragReader struct {
 	data  []byte
 	lens  []int
-	cur   int // bytes left in the current piece; -1 = need next piece
-	given [][]byte
+	flags []int // per piece, parallel to lens: 0 = nil, 1 = io.EOF, 2 = errC20Injected, reported by the Read that exhausts the piece
+	cur   int   // bytes left in the current piece; -1 = need next piece
+	curF  int   // flag of the current piece
+	// eofWithData: the Read that delivers the final bytes of the data reports io.EOF in the same call
+	// (allowed by the io.Reader contract; iotest.DataErrReader, decompressors, HTTP bodies do it)
+	eofWithData bool
+	given       [][]byte
 }
+
+var errC20Injected = errors.New("c20: injected read error")
 
 func (r *fragReader) Read(p []byte) (int, error) {
 	if r.cur < 0 {
 		if len(r.data) == 0 {
 			return 0, io.EOF
 		}
+		r.curF = 0
 		if len(r.lens) > 0 {
 			r.cur = r.lens[0]
 			r.lens = r.lens[1:]
+			if len(r.flags) > 0 {
+				r.curF = r.flags[0]
+				r.flags = r.flags[1:]
+			}
 			if r.cur > len(r.data) {
 				r.cur = len(r.data)
 			}
@@ -277,17 +290,30 @@ func (r *fragReader) Read(p []byte) (int, error) {
 	copy(p, r.data[:n])
 	r.data = r.data[n:]
 	r.cur -= n
-	if r.cur == 0 {
+	var err error
+	if r.cur == 0 { // this Read exhausts the piece: its error comes with the data (not sticky)
 		r.cur = -1
+		switch r.curF {
+		case 1:
+			err = io.EOF
+		case 2:
+			err = errC20Injected
+		}
+		if err == nil && r.eofWithData && len(r.data) == 0 {
+			err = io.EOF
+		}
 	}
 	if n > 0 {
 		r.given = append(r.given, p[:n])
 	}
-	return n, nil
+	return n, err
 }
 
 // mode: 0 fresh Packet per RecvMsg; 1 one Packet, ResetVT before every RecvMsg (receive.go);
 //       bit 2 (4): the stream is truncated to `cut` bytes (4th input element)
+//       bit 3 (8): the reader reports io.EOF together with the final bytes of the (cut) stream
+// lens: a piece is #n (Read error nil) or (#n #flag): flag 1 = io.EOF, 2 = another error, reported by the
+//       Read that exhausts the piece, together with its bytes (a piece of length 0: a Read returning (0, err))
 // -> (full-stream (item..)) item = (packet) | (#0) for an error other than io.EOF (then stop)
 func run2004(in Sx) Sx {
 	return guardedC20(func() Sx {
@@ -308,10 +334,16 @@ func run2004(in Sx) Sx {
 			}
 		}
 		lens := make([]int, len(in.L[2].L))
+		flags := make([]int, len(in.L[2].L))
 		for i, x := range in.L[2].L {
-			lens[i] = x.Int()
+			if x.Kind == 'n' {
+				lens[i] = x.Int()
+			} else {
+				lens[i] = x.L[0].Int()
+				flags[i] = x.L[1].Int()
+			}
 		}
-		fr := &fragReader{data: append([]byte{}, stream...), lens: lens, cur: -1}
+		fr := &fragReader{data: append([]byte{}, stream...), lens: lens, flags: flags, cur: -1, eofWithData: mode&8 != 0}
 		rs := util.NewProtoStream(context.Background(), fr, nil)
 		var early []string
 		var got []*types.Packet
@@ -887,7 +919,11 @@ func genC20(g *Gen) {
 			cls += "-big"
 		}
 		g.Emit(0x2004, in, n >= 2 || big, cls)
+		// the same packets and fragmentation through a reader that reports io.EOF together with the final bytes
+		in.L[0] = NI(in.L[0].Int() | 8)
+		g.Emit(0x2004, in, n >= 1, cls+"+eof-with-data")
 	}
+	c20GenReaderBehaviour(g) // errors reported together with data, at and off buffer boundaries (c20_reader.go)
 
 	// ---- (5) buffer
 	nBuf := g.Vol(150, 6000)
